@@ -216,6 +216,20 @@ int main(int argc, char **argv) {
   } else if (mode == 1) {
     ninj = 2; random_mode = 1;
     for (int r = 0; r < limit; r++) { nsched = 0; sim_readdir_snapshot = r & 1; rng = (seed * 1000003ull + shard) * 2654435761ull + r * 40503ull + 1; run_once(); }
+  } else if (mode == 3) {
+    /* as mode 2 but partitioned by the first THREE decisions (27 subtrees): the same depth-first enumeration spread evenly over the cores */
+    ninj = 2; random_mode = 0;
+    if (shard >= 27) return 0;
+    int fx[3] = { shard % 3, (shard / 3) % 3, (shard / 9) % 3 };
+    for (int k = 0; k < 3; k++) sched[k] = fx[k];
+    nsched = 3;
+    for (int runs = 0; runs < limit; runs++) {
+      sim_readdir_snapshot = 0; run_once(); sim_readdir_snapshot = 1; run_once();
+      int off = 0; for (int k = 0; k < 3; k++) if (nmade > k && made[k] != fx[k]) off = 1;     /* a forced choice did not exist */
+      if (off) break;
+      if (!next_schedule()) break;
+      if (nsched <= 3) break;                            /* would leave this shard's subtree */
+    }
   } else {
     /* exhaustive, partitioned: this shard owns the subtrees whose first two decisions are (shard % 3, (shard / 3) % 3) where they exist */
     ninj = 2; random_mode = 0;
